@@ -47,6 +47,16 @@ Definition array_block (sliced : bool) (v : variant) (size len rank : Z) : list 
 Definition all_blocks (v : variant) (size start stop : Z) : list Z :=
   flat_map (fun r => block v size start stop (Z.of_nat r)) (seq 0 (Z.to_nat size)).
 
+(* work is shared only in parallel_level = 1 (the outermost parallel region of an MPI run); in any
+   other level (serial run, nested region) every process loops over the whole range and the
+   reduction operations are the identity *)
+Definition api_block (level : Z) (v : variant) (size start stop rank : Z) : list Z :=
+  if level =? 1 then block v size start stop rank else zrange start stop.
+
+(* the value process [rank] holds after `allreduce` of the per-process partial sums *)
+Definition after_allreduce {A} (op : A -> A -> A) (e : A) (level : Z) (size : Z) (partial : nat -> A) (rank : nat) : A :=
+  if level =? 1 then fold_right op e (map partial (seq 0 (Z.to_nat size))) else partial rank.
+
 (* ---- correspondence helpers: compare with what the implementation returned ---- *)
 Definition eqb_pair (p q : Z * Z) : bool := (fst p =? fst q) && (snd p =? snd q).
 Fixpoint eqb_list {A} (e : A -> A -> bool) (l m : list A) : bool :=
